@@ -117,6 +117,8 @@ class C11(Prop):
             c0.execute("create table j (id int, v variant)")
             for i, d in enumerate(DOCS, 1):
                 c0.execute("insert into j select %s, parse_json(%s)", (i, json.dumps(d)))
+            # document 7: holds another JSON document as text (used by "reparse")
+            c0.execute("insert into j select 7, parse_json(%s)", (json.dumps({"payload": json.dumps({"id": 7, "t": "it is"}), "other": 1}),))
         cur = _FS.connect("DB1", "S1").cursor()
         ev = []
         for op in ops:
@@ -129,7 +131,7 @@ class C11(Prop):
 
     def case(self, op, cur):
         fn = op["fn"]
-        if fn in ("get", "oper", "arraysize", "flatten"):
+        if fn in ("get", "oper", "arraysize", "flatten", "consof"):
             j = op["doc"]
             src = op.get("src", "col")
             base = "v" if src == "col" else f"parse_json({sql_str(json.dumps(DOCS[j - 1]))})"
@@ -170,8 +172,22 @@ class C11(Prop):
             v = cur.execute(f"select array_construct({inner})" if op["form"] == "function" else f"select [{inner}]").fetchall()[0][0]
             return res_of(v, expect_doc=True)
         if fn == "split":
-            v = cur.execute(f"select split({sql_str(','.join(op['parts']))}, ',')").fetchall()[0][0]
+            sep = {"comma": ",", "blank": " ", "commablank": ", ", "twoblanks": "  "}[op.get("sep", "comma")]
+            v = cur.execute(f"select split({sql_str(sep.join(op['parts']))}, {sql_str(sep)})").fetchall()[0][0]
             return res_of(v, expect_doc=True)
+        if fn == "consof":
+            inner = f"object_construct('n', {e})" if op["cons"] == "object" else f"array_construct({e})"
+            cast = {"none": "", "varchar": "::varchar", "variant": "::variant"}[op["cast"]]
+            v = cur.execute(f"select {inner}{cast} as r{frm}").fetchall()[0][0]
+            return res_of(v, expect_doc=True)
+        if fn == "reparse":
+            inner = json.dumps({"id": 7, "t": "it is"})
+            outer = json.dumps({"payload": inner, "other": 1})
+            base = "v" if op["src"] == "col" else f"parse_json({sql_str(outer)})"
+            frm = " from j where id = 7" if op["src"] == "col" else ""
+            cast = "::int" if op["key"] == "id" else "::varchar"
+            v = cur.execute(f"select {op['via']}({base}:payload::varchar):{op['key']}{cast} as r{frm}").fetchall()[0][0]
+            return res_of(v, expect_doc=False)
         if fn == "tryparse":
             v = cur.execute("select try_parse_json(%s)", (json.dumps(DOCS[2]) if op["good"] else "{bad",)).fetchall()[0][0]
             return res_of(v, expect_doc=True)
